@@ -946,6 +946,10 @@ struct Classes {
     labels: bool,        // K-C04-labels
     vector: bool,        // K-C07-vector
     labelorder: bool,    // K-C06-labelorder
+    // not flags: which items K-C05-tomb explains (tombstones compacted away), and the interner view
+    res_nodes: BTreeSet<u32>,
+    res_edges: BTreeSet<E>,
+    names: Vec<u32>,
 }
 fn is_maint_compact(h: &HW) -> bool {
     matches!(h, HW::Compact | HW::Checkpoint)
@@ -958,7 +962,9 @@ fn classes(hw: &[HW]) -> Classes {
     let mut c = Classes::default();
     let mut r = Ref::default();
     let mut tombed_with_props: BTreeSet<E> = BTreeSet::new(); // edge keys deleted while they had properties
-    let mut any_delete_committed = false;
+    let mut seg_keys: BTreeSet<E> = BTreeSet::new(); // edge keys that reached a segment
+    let mut del_nodes: BTreeSet<u32> = BTreeSet::new(); // nodes deleted since the last compaction
+    let mut del_edges: BTreeSet<E> = BTreeSet::new(); // segment-resident edge keys deleted since the last compaction
     let mut sunk_n: BTreeSet<(u32, u8)> = BTreeSet::new();
     let mut sunk_e: BTreeSet<(E, u8)> = BTreeSet::new();
     let mut pend_n: BTreeSet<(u32, u8)> = BTreeSet::new(); // set since the last compaction
@@ -970,6 +976,7 @@ fn classes(hw: &[HW]) -> Classes {
     for h in hw {
         match h {
             HW::Txn(ws, commit) => {
+                r.note_labels(ws);
                 if ws.iter().any(|w| matches!(w, W::SetVec(_))) && !*commit {
                     c.vector = true;
                 }
@@ -987,12 +994,16 @@ fn classes(hw: &[HW]) -> Classes {
                             if r.ep.keys().any(|k| k.0 == *e) {
                                 tombed_with_props.insert(*e);
                             }
-                            any_delete_committed = true;
+                            if seg_keys.contains(e) {
+                                del_edges.insert(*e);
+                            }
                             created_here.retain(|x| x != e);
                             tombed_here.insert(*e);
                         }
                         W::TombNode(nd) => {
-                            any_delete_committed = true;
+                            if r.live(*nd) {
+                                del_nodes.insert(*nd);
+                            }
                             if created_here.iter().any(|e| (e.0 == *nd) != (e.2 == *nd)) {
                                 c.samerun = true;
                             }
@@ -1053,9 +1064,14 @@ fn classes(hw: &[HW]) -> Classes {
                 if rem_pending {
                     c.remove = true;
                 }
-                if any_delete_committed {
+                if !del_nodes.is_empty() || !del_edges.is_empty() {
                     c.tomb = true;
                 }
+                c.res_nodes.extend(del_nodes.iter().copied());
+                c.res_edges.extend(del_edges.iter().copied());
+                del_nodes.clear();
+                del_edges.clear();
+                seg_keys.extend(r.edges.iter().copied());
                 if recreate_pending {
                     c.recreate = true;
                 }
@@ -1088,6 +1104,7 @@ fn classes(hw: &[HW]) -> Classes {
             _ => {}
         }
     }
+    c.names = r.interner.clone();
     c
 }
 
@@ -1101,6 +1118,10 @@ enum Kind {
     Vector,
     Panic,
     Lookup,
+}
+thread_local! {
+    /// which node ids / edge keys (s, type NAME, d) differed in the last `diff_kinds` call
+    static LAST_DETAIL: std::cell::RefCell<(BTreeSet<u32>, BTreeSet<(u32, u32, u32)>)> = std::cell::RefCell::new((BTreeSet::new(), BTreeSet::new()));
 }
 /// how two dumps differ (a = observed, b = expected)
 fn diff_kinds(a: &Dump, b: &Dump) -> BTreeSet<Kind> {
@@ -1146,11 +1167,34 @@ fn diff_kinds(a: &Dump, b: &Dump) -> BTreeSet<Kind> {
     if a.vec != b.vec {
         k.insert(Kind::Vector);
     }
+    let na: BTreeSet<u32> = a.nodes.iter().map(|x| x.iid).collect();
+    let nb: BTreeSet<u32> = b.nodes.iter().map(|x| x.iid).collect();
+    let dn: BTreeSet<u32> = na.symmetric_difference(&nb).copied().collect();
+    let mut de: BTreeSet<(u32, u32, u32)> = BTreeSet::new();
+    for (va, vb) in [(&a.out, &b.out), (&a.inn, &b.inn)] {
+        let ma: BTreeMap<(u32, u32, u32), u32> = va.iter().map(|e| ((e.s, e.t, e.d), e.mult)).collect();
+        let mb: BTreeMap<(u32, u32, u32), u32> = vb.iter().map(|e| ((e.s, e.t, e.d), e.mult)).collect();
+        for key in ma.keys().chain(mb.keys()) {
+            if ma.get(key) != mb.get(key) {
+                de.insert(*key);
+            }
+        }
+    }
+    LAST_DETAIL.with(|l| *l.borrow_mut() = (dn, de));
     k
 }
 /// the known class (of the classes whose predicate holds) that explains every kind of difference, if any
 fn classify(c: &Classes, kinds: &BTreeSet<Kind>) -> Option<&'static str> {
     use Kind::*;
+    let (dn, de) = LAST_DETAIL.with(|l| l.borrow().clone());
+    let name_of = |id: u32| c.names.get(id as usize).copied().unwrap_or(999);
+    let tomb_explains = c.tomb
+        && dn.iter().all(|x| c.res_nodes.contains(x))
+        && de.iter().all(|(s, t, d)| {
+            c.res_nodes.contains(s) || c.res_nodes.contains(d) || c.res_edges.iter().any(|e| e.0 == *s && name_of(e.1) == *t && e.2 == *d)
+        });
+    // an edge-set difference may be shared with samerun / recreate: those keep their own predicates
+    let tomb_on = tomb_explains || (c.tomb && (c.samerun || c.recreate) && dn.iter().all(|x| c.res_nodes.contains(x)));
     let table: Vec<(bool, &'static str, Vec<Kind>)> = vec![
         (c.labels, "K-C04-labels", vec![Labels]),
         (c.labelorder, "K-C06-labelorder", vec![Labels]),
@@ -1159,7 +1203,7 @@ fn classify(c: &Classes, kinds: &BTreeSet<Kind>) -> Option<&'static str> {
         (c.remove, "K-C05-remove", vec![NProps, EProps]),
         (c.dups, "K-C05-dups", vec![NProps, EProps]),
         (c.recreate, "K-C05-recreate", vec![EdgeSet]),
-        (c.tomb, "K-C05-tomb", vec![NodeSet, EdgeSet]),
+        (tomb_on, "K-C05-tomb", vec![NodeSet, EdgeSet]),
         (c.vector, "K-C07-vector", vec![Vector]),
     ];
     let mut allowed: BTreeSet<Kind> = BTreeSet::new();
